@@ -652,7 +652,7 @@ func runC18(p *an.Prog, r *an.Run, tier string) {
 				al, ok := root.(*ssa.Alloc)
 				if !ok || al.Parent() != fn {
 					// a result parameter of a small generic helper is judged at the helper's call sites; anything else outlives the call
-					if _, isPrm := root.(*ssa.Parameter); isPrm {
+					if _, isPrm := root.(*ssa.Parameter); isPrm && root == v {
 						continue
 					}
 					fb = append(fb, an.FuncName(fn)+" decodes the node's reply into a value that outlives the call ("+p.Pos(c.Pos())+")")
